@@ -1047,6 +1047,90 @@ theorem C09_typed_stream (c : Cfg R) (cd : KVCodec K V) (hk : KeyRT cd) (ops : L
     rw [← h.1, ← h.2.2]
   · rw [← h.1]; exact h.2.1
 
+/-- **`Size` is the cardinality of the typed map**, for any round-tripping key serializer: a duplicate-free list of
+exactly the keys the plain typed map holds, and `Size()` answers its length. -/
+theorem C09_typed_size_eq_card [DecidableEq K] (c : Cfg R) (cd : KVCodec K V) (hk : KeyRT cd)
+    (ops : List (TyOp K V)) (hc : CleanFrom { c with dec := cd.dec } init (ops.map (encOp cd))) :
+    ∃ keys : List K, keys.Nodup ∧ (∀ k, k ∈ keys ↔ (tspec cd ops k).isSome = true) ∧
+      (tstep c cd (tfinal c cd init ops) .size).2 = .out (.size keys.length) := by
+  obtain ⟨ksB, hnd, hmem, hsize⟩ := C09_size_eq_card { c with dec := cd.dec } (ops.map (encOp cd)) hc
+  have hrel := rel_final hk ops
+  have himg : RawImg cd ksB := by
+    intro kb hkb
+    apply hrel.img kb
+    have := (hmem kb).mp hkb
+    intro hn; rw [hn] at this; simp at this
+  obtain ⟨hnd', hlen⟩ := nodup_decKeys hk himg hnd
+  refine ⟨decKeys cd ksB, hnd', ?_, ?_⟩
+  · intro k
+    rw [mem_decKeys hk himg k]
+    constructor
+    · rintro ⟨kb, hkb, he⟩
+      have := (hmem kb).mp hkb
+      rw [hrel.agree k kb he] at this
+      cases h : tspec cd ops k with
+      | none => simp [h] at this
+      | some v => rfl
+    · intro h
+      obtain ⟨v, hv⟩ := Option.isSome_iff_exists.mp h
+      obtain ⟨kb, hkb⟩ := Option.isSome_iff_exists.mp (hrel.kencOk k v hv)
+      refine ⟨kb, (hmem kb).mpr ?_, hkb⟩
+      rw [hrel.agree k kb hkb, hv]
+      simpa using hrel.enc k v hv
+  · have e := tfinal_eq c cd init ops
+    simp only [tstep, encOp, tout, e, hlen]
+    rw [hsize]
+
+/-- **`Stream` delivers the typed map**, for any round-tripping serializers: with a callback that never fails,
+`Stream` reports success and the pairs handed to the callback are exactly the pairs of the plain typed map. -/
+theorem C09_typed_stream_complete [DecidableEq K] (c : Cfg R) (cd : KVCodec K V) (hk : KeyRT cd) (hv : ValRT cd)
+    (ops : List (TyOp K V)) (hc : CleanFrom { c with dec := cd.dec } init (ops.map (encOp cd))) :
+    ∃ ps, (tstep c cd (tfinal c cd init ops) (.stream 0)).2 = .streamed ps .ok ∧
+      ∀ k v, (k, v) ∈ ps ↔ tspec cd ops k = some v := by
+  have hrel := rel_final hk ops
+  obtain ⟨full, _, hfull, psB, e, hout, _, hok, _, hsucc⟩ :=
+    C09_stream { c with dec := cd.dec } (ops.map (encOp cd)) hc 0
+  -- every stored value is the stored form of a typed value, so it decodes
+  have hstored : ∀ kb vb, Spec.final (ops.map (encOp cd)) kb = some vb →
+      ∃ k v, cd.kenc k = some kb ∧ tspec cd ops k = some v ∧ cd.venc v = some vb := by
+    intro kb vb h
+    obtain ⟨k, hkb⟩ := hrel.img kb (by rw [h]; simp)
+    rw [hrel.agree k kb hkb] at h
+    cases hm : tspec cd ops k with
+    | none => simp [hm] at h
+    | some v => exact ⟨k, v, hkb, hm, by simpa [hm] using h⟩
+  have he : e = .ok := by
+    apply hsucc rfl
+    intro kb vb h
+    obtain ⟨k, v, _, _, hvb⟩ := hstored kb vb h
+    simp [KVCodec.dec, hv v vb hvb]
+  subst he
+  have hps : psB = full := hok rfl
+  have hty := (C09_typed_stream c cd hk ops 0).1
+  have e0 := tfinal_eq c cd init ops
+  have hB : streamGo cd.dec (tfinal c cd init ops).trie 0 (tfinal c cd init ops).rawKeys [] = (psB, .ok) := by
+    have := hout
+    simp only [step, ← e0] at this
+    injection this with h1 h2
+    exact Prod.ext h1 h2
+  refine ⟨full.filterMap (decPair cd), ?_, ?_⟩
+  · rw [hty, hB, hps]; rfl
+  · intro k v
+    simp only [List.mem_filterMap]
+    constructor
+    · rintro ⟨⟨kb, vb⟩, hmem, hd⟩
+      obtain ⟨k0, v0, hkb, hm, hvb⟩ := hstored kb vb ((hfull kb vb).mp hmem)
+      simp only [decPair, hk k0 kb hkb, hv v0 vb hvb] at hd
+      injection hd with hd
+      injection hd with h1 h2
+      subst h1; subst h2; exact hm
+    · intro hm
+      obtain ⟨kb, hkb⟩ := Option.isSome_iff_exists.mp (hrel.kencOk k v hm)
+      obtain ⟨vb, hvb⟩ := Option.isSome_iff_exists.mp (hrel.enc k v hm)
+      refine ⟨(kb, vb), (hfull kb vb).mpr ?_, ?_⟩
+      · rw [hrel.agree k kb hkb, hm]; simpa using hvb
+      · simp [decPair, hk k kb hkb, hv v vb hvb]
+
 /-- **A raw key that does not decode ends `Stream`** with the decoder's error after the pairs before it (a key
 serializer that does not round-trip: outside the property; this is what the code does). -/
 theorem C09_typed_stream_key_decode_error_witness :
